@@ -917,9 +917,6 @@ func (f *Frame) allocStruct(st *State, cl *ast.CompositeLit) Term {
 			name := kv.Key.(*ast.Ident).Name
 			for j := 0; j < stt.NumFields(); j++ {
 				if stt.Field(j).Name() == name {
-					if isStructValue(stt.Field(j).Type()) {
-						vc.fail(kv.Pos(), "struct-valued field %s in composite literal", name)
-					}
 					vals[j] = f.convert(f.expr(st, kv.Value), f.typeOf(kv.Value), stt.Field(j).Type())
 					set[j] = true
 				}
@@ -940,8 +937,23 @@ func (f *Frame) initStructFields(st *State, r Term, prefix string, stt *types.St
 		fld := stt.Field(j)
 		ft := f.subst(fld.Type())
 		if isStructValue(ft) {
+			// a struct value embedded in a heap object is flattened into per-field heap arrays; an explicit
+			// value (an SMT record) is taken apart field by field
 			inner := ft.Underlying().(*types.Struct)
-			f.initStructFields(st, r, prefix+"."+fld.Name(), inner, make([]Term, inner.NumFields()), make([]bool, inner.NumFields()))
+			ivals := make([]Term, inner.NumFields())
+			iset := make([]bool, inner.NumFields())
+			if set != nil && set[j] {
+				rec := vals[j]
+				for k := 0; k < inner.NumFields(); k++ {
+					kt := f.subst(inner.Field(k).Type())
+					if isEmptyStruct(kt) {
+						continue
+					}
+					ivals[k] = app(f.sortOf(kt), structFieldSel(rec.Sort, inner.Field(k).Name()), rec)
+					iset[k] = true
+				}
+			}
+			f.initStructFields(st, r, prefix+"."+fld.Name(), inner, ivals, iset)
 			continue
 		}
 		var v Term
